@@ -138,6 +138,7 @@ def run_sequence_check(chk, prefix, what):
     # the connection takes a write whole, or one / two bytes of it at a time (rotating over the cases)
     for k, c in enumerate(cases):
         c["wchunk"] = [0, 0, 0, 1, 2][k % 5]
+        c["chunk"] = [0, 0, 1, 0, 3, 0, 64][k % 7]          # ... and hands out what it has whole or in pieces
     out = replay(binary, cases, wd, "replay")
     mism = []
     n = 0
